@@ -1,0 +1,21 @@
+//go:build verif
+
+package getoptions
+
+import "io"
+
+// VerifSetExitFn - verification hook (build tag verif): replaces the function called on the completion exit path.
+// Returns the previous one.
+func VerifSetExitFn(fn func(int)) func(int) {
+	old := exitFn
+	exitFn = fn
+	return old
+}
+
+// VerifSetCompletionWriter - verification hook (build tag verif): replaces the writer that receives the completion list.
+// Returns the previous one.
+func VerifSetCompletionWriter(w io.Writer) io.Writer {
+	old := completionWriter
+	completionWriter = w
+	return old
+}
